@@ -484,6 +484,15 @@ func (r *beRun) oracleC18BE() {
 			}
 
 			delete(m, rec.key)
+		case "walkDel":
+			// Delete calls issued from inside the Walk callback count like any other
+			for _, d := range rec.walkDel {
+				if (seq && m[d.key]) || (!seq && d.err == nil) {
+					deletes++
+				}
+
+				delete(m, d.key)
+			}
 		case "expireAll":
 			expiredAll += len(m)
 			out.probe("expireAll_counted")
